@@ -275,7 +275,7 @@ pub fn check_run(
                     run += 1;
                     st.max_completes_between_polls = st.max_completes_between_polls.max(run);
                 }
-                Act::Poll | Act::PollDropping(..) => run = 0,
+                Act::Poll | Act::PollDropping(..) | Act::PollNesting(..) => run = 0,
                 _ => {}
             }
         }
@@ -305,6 +305,9 @@ pub fn check_run(
         Ret::Livelock => {
             for p in verdict_props {
                 out.push(v(p, "livelock", "poll guard exceeded without external event".into()));
+            }
+            if matches!(cfg.limit, Some(l) if l >= 1) && shape.is_concurrent() {
+                out.push(v("C10", "livelock-under-limit", format!("call with limit {:?} never returns (polled without end)", cfg.limit)));
             }
         }
         Ret::Panic(m) => {
@@ -403,7 +406,8 @@ pub fn check_run(
             ));
         }
         // signal pending before the call began
-        let pre = trace.first() == Some(&Ev::Interrupt) && acts.first() == Some(&Act::Interrupt);
+        let pre = trace.first() == Some(&Ev::Interrupt)
+            && (acts.first() == Some(&Act::Interrupt) || cfg.pre_interrupted > 0);
         if pre {
             let b2 = match cfg.strat {
                 Strat::FinishCurrent | Strat::PollNextN(0) => 0,
